@@ -50,6 +50,8 @@ func runC13(r *hk.Run) {
 	h1InteractivePairs(r, rng, r.Scale(30, 300))
 	h1CloneAsyncPairs(r, rng, r.Scale(12, 120))
 	h2BrokenRespPairs(r, rng, r.Scale(30, 300))
+	h1DisableMidPairs(r, rng, r.Scale(15, 150))
+	h1RetryOnErrPairs(r, rng, r.Scale(25, 250))
 }
 
 // ---------- (a) line cases ----------
@@ -626,7 +628,8 @@ type partsObs struct {
 	Reads         []readObs // manual-read mode: the Reads the caller made (RespBody is their concatenation)
 	Warm          bool      // the warm-up exchange of the run: seen by the client-level dumper and by its own
 	// request-level dumper (level 2), not by the main request's dumper (level 1)
-	After bool // a request without dumper of its own sent after the main one: client level only
+	After       bool // a request without dumper of its own sent after the main one: client level only
+	ResetReqBuf bool // a further attempt of the same request: Request.do has reset the request's own dump buffer
 }
 
 // warmOpt: the request-level dumper of the warm-up request (EnableDumpTo: everything on, one writer)
@@ -653,6 +656,9 @@ func expectedContents(cfg dumpCfg, xs []partsObs) map[[2]int][]byte {
 		}
 	}
 	for _, x := range xs {
+		if x.ResetReqBuf {
+			delete(exp, [2]int{1, reqBufID})
+		}
 		for level, o := range levelsFor(cfg, x) {
 			if o == nil {
 				continue
